@@ -372,6 +372,8 @@ def r3(ctx: Ctx, rid: str) -> None:
     if not accept:
         raise AnalysisError("_recover_version_from_files no longer reads the version group of the metadata regex")
     mpaths = {dotted(x) for x in ast.walk(rc.node) if isinstance(x, ast.Attribute) and x.attr == "metadata_path" and dotted(x)}
+    mpaths |= {dotted(x) for n_ in g.nodes if n_.ast is not None and n_.kind in ("stmt", "branch", "call", "return")
+               for x in ast.walk(n_.ast) if isinstance(x, ast.Attribute) and x.attr == "metadata_path" and dotted(x)}  # helpers analysed in place
     body = edge_target(g, lp, "true")
     res = {}
     sample = next((c for c in ("v3-0a1b2c3d.metadata.json", "v3.metadata.json", "v3-0a1b.metadata.json") if re.match(metadata_regex(ctx), c)), None)
